@@ -6,7 +6,7 @@
 //! compare the model's loaded fields, decisions, written JSON and reloaded decisions with the real ones.
 use adlt::dlt::{DltChar4, DltMessage};
 use adlt::filter::functions::{filters_from_convert_format, filters_from_dlf};
-use adlt::filter::{Char4OrRegex, Filter};
+use adlt::filter::{Char4OrRegex, Filter, FilterKind};
 use serde::{Deserialize, Serialize};
 use std::collections::{BTreeSet, HashMap};
 use vharness::*;
@@ -67,6 +67,8 @@ enum FeIn {
     DlfText(String),
     Conv(Vec<u8>),
     Eac(String),
+    /// Filter::new(kind) + assignment of the public fields (library users, export plugin)
+    Direct(AFilter),
 }
 
 fn pad4(b: &[u8]) -> [u8; 4] {
@@ -548,6 +550,7 @@ fn coq_fe(fe: &FeIn) -> String {
         ),
         FeIn::Conv(b) => format!("InConv {}", cbytes(b)),
         FeIn::Eac(s) => format!("InEac {}", cbytes(s.as_bytes())),
+        FeIn::Direct(a) => format!("InDirect {}", coq_afilter(a)),
     }
 }
 fn coq_msg(m: &Msg, text: &Option<String>) -> String {
@@ -752,6 +755,7 @@ fn record_multi(sink: &mut Sink, ctx: &mut Ctx, fe: FeIn, a: Option<AFilter>, al
         FeIn::Dlf(..) | FeIn::DlfText(_) => "dlf",
         FeIn::Conv(_) => "conv",
         FeIn::Eac(_) => "eac",
+        FeIn::Direct(_) => "direct",
     };
     let mut tags: Vec<String> = vec![format!("fe_{}", fe_name)];
     tags.extend(extra_tags.iter().map(|s| s.to_string()));
@@ -782,6 +786,7 @@ fn record_multi(sink: &mut Sink, ctx: &mut Ctx, fe: FeIn, a: Option<AFilter>, al
                     FeIn::JsonRaw(t) => Filter::from_json(t).ok().map(|f| vec![f]),
                     FeIn::Dlf(..) | FeIn::DlfText(_) => filters_from_dlf(dlf_text(&fe2).unwrap().as_bytes()).ok(),
                     FeIn::Conv(b) => filters_from_convert_format(&b[..]).ok(),
+                    FeIn::Direct(a) => direct_filter(a).map(|f| vec![f]),
                     FeIn::Eac(_) => unreachable!(),
                 };
                 fs.map(|fs| {
@@ -846,6 +851,14 @@ fn record_multi(sink: &mut Sink, ctx: &mut Ctx, fe: FeIn, a: Option<AFilter>, al
         FeIn::Eac(s) => {
             for p in s.split(':') {
                 strings.insert(p.to_string());
+            }
+        }
+        FeIn::Direct(a) => {
+            for c in [&a.ecu, &a.apid, &a.ctid].into_iter().flatten() {
+                strings.insert(c.s.clone());
+            }
+            if let Some(p) = &a.payload {
+                strings.insert(p.s.clone());
             }
         }
         _ => {}
@@ -1072,6 +1085,10 @@ fn record_multi(sink: &mut Sink, ctx: &mut Ctx, fe: FeIn, a: Option<AFilter>, al
         if a.negate {
             tags.push("negated".into());
         }
+        if let Some(l) = &a.lcs {
+            let sorted = l.windows(2).all(|w| w[0] <= w[1]);
+            tags.push(format!("lifecycles_{}{}", if l.len() <= 1 { "short" } else if sorted { "ascending" } else { "unordered" }, if a.negate { "_not" } else { "" }));
+        }
         let texts_of = [a.ecu.as_ref().map(|c| &c.s), a.apid.as_ref().map(|c| &c.s), a.ctid.as_ref().map(|c| &c.s), a.payload.as_ref().map(|p| &p.s)];
         if texts_of.iter().flatten().any(|t| t.trim() != t.as_str()) {
             tags.push(format!("edge_whitespace_{}", fe_name));
@@ -1150,6 +1167,129 @@ fn gen_aid(rng: &mut Rng) -> AId {
         _ => AId { s: rng.pick(&RE_PLAIN_IDS).to_string(), regex: true },
     }
 }
+/// an arbitrary list of lifecycle ids: any order, repetitions, 0, large ids, up to 12 entries
+fn gen_lcs(rng: &mut Rng) -> Vec<u32> {
+    let n = match rng.below(8) {
+        0 => 0,
+        1 => 1,
+        2 => 2,
+        3 => 3,
+        _ => rng.range(2, 12),
+    } as usize;
+    let pool: Vec<u32> = match rng.below(4) {
+        0 => (0..8).collect(),
+        1 => vec![0, 1, 2, 3, 5, 8, 13, 47, 11, 1000, 65535, 65536, u32::MAX - 1, u32::MAX],
+        2 => (0..40).map(|x| x * 3 + 1).collect(),
+        _ => vec![1, 2, 3, 4],
+    };
+    let mut l: Vec<u32> = (0..n).map(|_| *rng.pick(&pool)).collect();
+    match rng.below(6) {
+        0 => l.sort(),
+        1 => {
+            l.sort();
+            l.reverse()
+        }
+        2 => {
+            // ascending but for one element moved to the front / the end
+            l.sort();
+            if l.len() > 1 {
+                if rng.chance(1, 2) {
+                    l.rotate_left(1)
+                } else {
+                    l.rotate_right(1)
+                }
+            }
+        }
+        _ => {} // as drawn: unordered, with repetitions
+    }
+    l
+}
+/// values around a list: every element, just below the minimum, just above the maximum, between neighbours, 0
+fn list_probes(l: &[u32]) -> Vec<u32> {
+    let mut v: Vec<u32> = l.to_vec();
+    let mut sorted = l.to_vec();
+    sorted.sort();
+    sorted.dedup();
+    if let (Some(mn), Some(mx)) = (sorted.first(), sorted.last()) {
+        v.push(mn.wrapping_sub(1));
+        v.push(mx.wrapping_add(1));
+    }
+    for w in sorted.windows(2) {
+        if w[1] - w[0] > 1 {
+            v.push(w[0] + (w[1] - w[0]) / 2);
+        }
+    }
+    v.push(0);
+    v.push(1);
+    let mut seen = BTreeSet::new();
+    v.into_iter().filter(|x| seen.insert(*x)).collect()
+}
+fn atype_vm(t: &AType) -> (u8, u8) {
+    match t {
+        AType::Mstp(x) => ((x & 7) << 1, 0x0e),
+        AType::Vmm(v) => (*v, if v >> 4 == 0 { 0x0f } else { 0xff }),
+    }
+}
+/// what can be said by assigning the public fields: no negation, no case-insensitive literal (its cache is private)
+fn direct_filter(a: &AFilter) -> Option<Filter> {
+    if a.negate {
+        return None;
+    }
+    let mut f = Filter::new(match a.kind {
+        0 => FilterKind::Positive,
+        1 => FilterKind::Negative,
+        2 => FilterKind::Marker,
+        _ => FilterKind::Event,
+    });
+    f.enabled = a.enabled;
+    let id = |c: &Option<AId>| -> Option<Option<Char4OrRegex>> {
+        match c {
+            None => Some(None),
+            Some(c) => Char4OrRegex::from_str(&c.s, c.regex).ok().map(Some),
+        }
+    };
+    f.ecu = id(&a.ecu)?;
+    f.apid = id(&a.apid)?;
+    f.ctid = id(&a.ctid)?;
+    f.verb_mstp_mtin = a.ty.as_ref().map(atype_vm);
+    if let Some(p) = &a.payload {
+        if p.regex {
+            let pat = if p.ic { format!("(?i){}", p.s) } else { p.s.clone() };
+            f.payload_regex = Some(fancy_regex::Regex::new(&pat).ok()?);
+            f.ignore_case_payload = p.ic;
+        } else {
+            if p.ic {
+                return None;
+            }
+            f.payload = Some(p.s.clone());
+        }
+    }
+    f.loglevel_min = a.lmin;
+    f.loglevel_max = a.lmax;
+    f.lifecycles = a.lcs.clone();
+    Some(f)
+}
+fn coq_afilter(a: &AFilter) -> String {
+    let id = |c: &Option<AId>| copt(c.as_ref().map(|c| format!("{{| ai_s := {}; ai_regex := {} |}}", cbytes(c.s.as_bytes()), cbool(c.regex))));
+    format!(
+        "{{| a_kind := {}; a_enabled := {}; a_negate := {}; a_ecu := {}; a_apid := {}; a_ctid := {}; a_type := {}; a_lmin := {}; a_lmax := {}; a_payload := {}; a_lcs := {} |}}",
+        a.kind,
+        cbool(a.enabled),
+        cbool(a.negate),
+        id(&a.ecu),
+        id(&a.apid),
+        id(&a.ctid),
+        copt(a.ty.as_ref().map(|t| match t {
+            AType::Mstp(x) => format!("(AMstp {})", x),
+            AType::Vmm(v) => format!("(AVmm {})", v),
+        })),
+        copt(a.lmin.map(|l| l.to_string())),
+        copt(a.lmax.map(|l| l.to_string())),
+        copt(a.payload.as_ref().map(|p| format!("{{| ap_s := {}; ap_regex := {}; ap_ic := {} |}}", cbytes(p.s.as_bytes()), cbool(p.regex), cbool(p.ic)))),
+        copt(a.lcs.as_ref().map(|l| cnums(l)))
+    )
+}
+
 fn gen_afilter(rng: &mut Rng, p_num: u64, p_den: u64) -> AFilter {
     let mut on = |rng: &mut Rng| rng.chance(p_num, p_den);
     AFilter {
@@ -1178,13 +1318,7 @@ fn gen_afilter(rng: &mut Rng, p_num: u64, p_den: u64) -> AFilter {
             None
         },
         lcs: if on(rng) {
-            Some(match rng.below(5) {
-                0 => vec![],
-                1 => vec![1],
-                2 => vec![1, 2],
-                3 => vec![0],
-                _ => vec![3, 1, 3],
-            })
+            Some(gen_lcs(rng))
         } else {
             None
         },
@@ -1311,6 +1445,52 @@ fn universe(rng: &mut Rng, eng: &mut Engines, a: &AFilter, n_random: u64) -> (Ve
         for t in vs {
             let mut m = base.clone();
             m.text = Some(t);
+            ms.push(m);
+        }
+    }
+    // list-valued criterion: a message for every listed id (first .. last), the values around the list, 0
+    if let Some(l) = &a.lcs {
+        let mut ps = list_probes(l);
+        while ps.len() > 18 {
+            let k = rng.below(ps.len() as u64) as usize;
+            ps.remove(k);
+        }
+        for lc in ps {
+            let mut m = base.clone();
+            m.lc = lc;
+            ms.push(m);
+        }
+    }
+    // numeric criteria: the type byte of the satisfying message with the level at / just below / just above each
+    // bound, another message type, the verbose flag flipped, the filter's own value and its one-bit neighbours
+    if let Some((bv, _, _)) = base.ext {
+        let mut vs: BTreeSet<u8> = BTreeSet::new();
+        for l in [a.lmin, a.lmax].into_iter().flatten() {
+            for mtin in [l.wrapping_sub(1) & 0x0f, l, (l + 1) & 0x0f] {
+                vs.insert((bv & 0x0f) | (mtin << 4));
+                vs.insert((bv & 0x01) | (mtin << 4)); // a log message
+                vs.insert((bv & 0x01) | (1 << 1) | (mtin << 4)); // the same level on a trace message
+            }
+        }
+        if let Some(t) = &a.ty {
+            let (v, mask) = atype_vm(t);
+            vs.insert(v);
+            for bit in 0..8 {
+                vs.insert(v ^ (1 << bit));
+            }
+            vs.insert(v | !mask);
+            vs.insert(bv ^ 0x01);
+        }
+        let mut vs: Vec<u8> = vs.into_iter().collect();
+        while vs.len() > 12 {
+            let k = rng.below(vs.len() as u64) as usize;
+            vs.remove(k);
+        }
+        for v in vs {
+            let mut m = base.clone();
+            if let Some(e) = &mut m.ext {
+                e.0 = v;
+            }
             ms.push(m);
         }
     }
@@ -1603,7 +1783,16 @@ fn exhaustive_filter(bits: u32, negate: bool, enabled: bool, variant: u32) -> AF
         lmin: if b(4) { Some(2) } else { None },
         lmax: if b(5) { Some(4) } else { None },
         payload: if b(6) { Some(APayload { s: (match variant % 4 { 0 => "foo", 2 => "foo ", 1 => "fo+ b", _ => "^fo+ " }).into(), regex: !lit, ic: variant % 4 >= 2 }) } else { None },
-        lcs: if b(7) { Some(if variant % 4 == 3 { vec![] } else { vec![1, 2] }) } else { None },
+        lcs: if b(7) {
+            Some(match variant % 4 {
+                0 => vec![1, 2],
+                1 => vec![9, 4, 6, 4, 2],
+                2 => vec![3, 2, 1],
+                _ => vec![],
+            })
+        } else {
+            None
+        },
     }
 }
 
@@ -1761,9 +1950,12 @@ fn main() {
                     let af = exhaustive_filter(bits, negate, enabled, v);
                     let (msgs, base) = universe(&mut rng, &mut ctx.eng, &af, 1);
                     let kv = a_to_json(&mut rng, &af);
-                    let sweep = if bits & 0x38 != 0 && (bits + negate as u32) % 4 == 0 { Some(base) } else { None };
+                    let sweep = if bits & 0x38 != 0 { Some(base) } else { None };
                     group += 1;
                     record(&mut sink, &mut ctx, FeIn::Json(kv), Some(af.clone()), msgs.clone(), sweep.clone(), Some(group), &["exhaustive"]);
+                    if (thorough || bits % 4 == 3) && direct_filter(&af).is_some() {
+                        record(&mut sink, &mut ctx, FeIn::Direct(af.clone()), Some(af.clone()), msgs.clone(), sweep.clone(), Some(group), &["exhaustive"]);
+                    }
                     if thorough || bits % 4 == 1 {
                         if let Some(d) = a_to_dlf(&mut rng, &af) {
                             record(&mut sink, &mut ctx, FeIn::Dlf(vec![d], false), Some(af), msgs, sweep, Some(group), &["exhaustive"]);
@@ -1777,7 +1969,15 @@ fn main() {
     // random abstract filters through every front-end that can express them
     let n = a.count.unwrap_or(if quick { 260 } else if a.tier == "search" { 500 } else { 6000 });
     for i in 0..n {
-        let af = match i % 6 {
+        let af = match i % 7 {
+            6 => {
+                // list-valued criterion in front: arbitrary lifecycle lists, with and without negation
+                let mut f = gen_afilter(&mut rng, 1, 5);
+                f.lcs = Some(gen_lcs(&mut rng));
+                f.negate = rng.chance(1, 2);
+                f.enabled = true;
+                f
+            }
             0 => gen_ids_only(&mut rng, true),
             1 => gen_ids_only(&mut rng, false),
             2 => gen_afilter(&mut rng, 1, 2),
@@ -1816,6 +2016,9 @@ fn main() {
         group += 1;
         let kv = a_to_json(&mut rng, &af);
         record(&mut sink, &mut ctx, FeIn::Json(kv), Some(af.clone()), msgs.clone(), sweep.clone(), Some(group), &[]);
+        if direct_filter(&af).is_some() && (af.lcs.is_some() || rng.chance(1, 2)) {
+            record(&mut sink, &mut ctx, FeIn::Direct(af.clone()), Some(af.clone()), msgs.clone(), sweep.clone(), Some(group), &[]);
+        }
         if let Some(d) = a_to_dlf(&mut rng, &af) {
             record(&mut sink, &mut ctx, FeIn::Dlf(vec![d], rng.chance(1, 2)), Some(af.clone()), msgs.clone(), sweep.clone(), Some(group), &[]);
         }
